@@ -228,6 +228,11 @@ impl<S: Read + Write> Client<S> {
         self.transport.shutdown()
     }
 
+    /// Number of bytes that can be read without waiting for the socket
+    pub fn pending(&self) -> usize {
+        self.transport.pending()
+    }
+
     #[cfg(feature = "integration")]
     pub fn get_link(self) -> Link<S> {
         self.transport
